@@ -4,6 +4,7 @@ mod util;
 mod tables;
 mod c04;
 mod scanrec;
+mod directed;
 mod c13;
 mod c12;
 mod alias;
@@ -42,7 +43,13 @@ fn main() {
             util::tlc_vectors(f, |v| {
                 let mut texts = vec![rules::rule_text(&v["rule"], &t)];
                 if v.get("rule2").is_some() { texts.push(rules::rule_text(&v["rule2"], &t)); }
-                if asca::verif::parse_rules(&[asca::RuleGroup::from_rules(texts.clone())]).is_ok() { out.push_str(&texts.join("\t")); out.push('\n'); }
+                if asca::verif::parse_rules(&[asca::RuleGroup::from_rules(texts.clone())]).is_ok() {
+                    // with each rule: a few words assembled from its own elements (after a unit separator)
+                    let mut rng = util::Rng::new(v["seed"].as_u64().unwrap_or(1) ^ 0xd1ec);
+                    let mut ws = directed::words(&v["rule"], &t, &mut rng, 4);
+                    if v.get("rule2").is_some() { ws.extend(directed::words(&v["rule2"], &t, &mut rng, 3)); }
+                    out.push_str(&texts.join("\t")); out.push('\u{1f}'); out.push_str(&ws.join(" ")); out.push('\n');
+                }
             }, |_| {});
             std::fs::write(&args[3], out).unwrap();
         }
